@@ -119,4 +119,9 @@ PROPS = {
         'rule': "(1) parameters: the five probe integers from an edge set {0,+-1,2,3,10,65535,65536,+-2^31,+-2^40} or uniform int32, port strings (empty, numeric, out of range, junk), both probe kinds, through ValidateAndSetDefaults and through a full loader.Load: legality predicate + idempotence; (2) coupling, injected outcomes: a probed process (policy in {'',no,always,on_failure} x max_restarts) or a daemon with a liveness probe, 1-10 steps of probe ok / fail / gave-up (fatal), exits, stop: reported health and stop/relaunch compared with the statement after every step, process_healthy dependent launched only after a success; (3) the real Prober against a scripted HTTP target (200 / 500, period 1 s, threshold 1-3): callback ok/fatal sequence vs consecutive-failure count. Non-trivial = an illegal configured value, a script that reaches the threshold or flips ok<->fail; distinct = distinct case JSON",
         'assumptions': LIFE_ASSUME[:2] + ["success_threshold is documented as not respected and is not asserted", "the real-time prober cases are bounded by the 1 s period; a case whose callbacks do not arrive in time is inconclusive, never a violation"],
     },
+    'C19': {
+        'tests': [tst('rest', 'TestC19', 100, 2500)],
+        'rule': "a live runner (keeper, a replicated process with 1-3 replicas, a restarting job, a dependent, a disabled process) behind httptest + api.InitRoutes and a client.PcClient; sequences of 5-30 steps over every route: reads (states, state, info, logs, project state, ports) compared three ways (REST body vs direct call vs client decode, canonical JSON with age/mem/cpu/uptime masked), state-changing requests (stop/start/restart/scale/stop-many/update-process, alternately through REST and the client) with outcome class and post-state checks, invalid requests (unknown and hostile names, non-numeric / negative / overflowing numbers, malformed and wrongly typed bodies, wrong methods and routes), interleaved with process exits and log lines. Every answer must be < 500, invalid ones 4xx, and GET /live must answer 200 after every step. Non-trivial = a read of a process after a state change plus at least one invalid request; distinct = distinct case JSON",
+        'assumptions': LIFE_ASSUME[:1] + ["names passed to the client are restricted to [A-Za-z0-9_.-] (it builds URLs without escaping); other names go to the server with proper escaping", "SetProcessPassword, swagger and the client's unimplemented GetProcessLog are outside the compared surface; the websocket stream is covered by C18", "a request that does not return within 6 s is reported as a violation (the server 'stopped serving' that request)"],
+    },
 }
